@@ -301,7 +301,7 @@ def main(chk):
         return
     srcs = [os.path.join(d, f) for f in t.files if f.endswith('.c')] + [os.path.join(env.VERIF, 'harness', 'futex_stress.c')] + futex_sources()
     builds = [('plain-guard', ['-O1', '-g'], True), ('asan-guard', ['-O1', '-g', '-fsanitize=address,undefined', '-fno-sanitize-recover=all'], True),
-              ('tsan-guard', ['-O1', '-g', '-fsanitize=thread'], True), ('plain-noguard', ['-O2'], False)]
+              ('tsan-guard', ['-O1', '-g', '-fsanitize=thread'], True), ('plain-noguard', ['-O2', '-DNDEBUG'], False)]
     exes = {}
     for tag, fl, guard in builds:
         exe = os.path.join(d, 'fx-' + tag)
